@@ -109,19 +109,28 @@ class Probe:
 class World:
     """a base pulse (d = 2), three frequency grids, a spectrum, user data computed on fresh pulses"""
 
-    def __init__(self, make_pulse, grids):
+    def __init__(self, make_pulse, grids, extended=False):
+        """extended: make_pulse returns a pulse made by extend(...) with cached diagonalization (the object the
+        model calls FreshExtended); fresh() is the same pulse constructed from its physical definition"""
         self.make = make_pulse
+        self.extended = extended
         self.W = [np.asarray(g, dtype=float) for g in grids]
         assert len(self.W[0]) == len(self.W[1]) != len(self.W[2])
         self.S = [1.0 / (1.0 + w ** 2) for w in self.W]
         self.traceless = bool(make_pulse().basis.istraceless)
-        self.pauli = make_pulse().basis.btype == 'Pauli'
+        self.pauli = make_pulse().basis.btype == 'Pauli' and make_pulse().d == 2
+        self.nqubits = int(round(np.log2(make_pulse().d)))
         self._ud = {}
+
+    def fresh(self):
+        p = self.make()
+        return ff.PulseSequence(list(zip(p.c_opers, p.c_coeffs, p.c_oper_identifiers)),
+                                list(zip(p.n_opers, p.n_coeffs, p.n_oper_identifiers)), p.dt, basis=p.basis)
 
     def user(self, kind, g, which='Fidelity', order='First'):
         key = (kind, g, which, order)
         if key not in self._ud:
-            p = self.make()
+            p = self.fresh()
             w = self.W[g]
             if kind == 'cm':
                 v = p.get_control_matrix(w)
@@ -271,7 +280,7 @@ def apply_op(world, p, op):
         ff.concatenate_periodic(p, 2)
         return None
     if name == 'RemapInput':
-        ff.remap(p, (0,))
+        ff.remap(p, tuple(range(world.nqubits)))
         return None
     if name == 'PropagatorAt':
         p.propagator_at_arb_t(np.array([0.05, 0.4, 0.9]))
@@ -297,9 +306,10 @@ def classify_exception(e):
     return 6
 
 
-def run_history(world, history, want_values=False, after_call=None):
+def run_history(world, history, want_values=False, after_call=None, vflag=None):
     """execute a history; returns (observations, objects, values).  An observation is
-    (result class, [label indices], [occupancy mask of every object])."""
+    (result class, [label indices], [occupancy mask of every object], value flag); vflag(n, call, value,
+    exception) -> 0 equals the fresh pulse's value, 1 differs, 2 not compared."""
     objs = [world.make()]
     obs, values = [], []
     with Probe() as probe, warnings.catch_warnings():
@@ -329,8 +339,9 @@ def run_history(world, history, want_values=False, after_call=None):
                 if call[1] < len(objs):
                     objs.append(copy.deepcopy(objs[call[1]]))
             elif kind == 'fresh':
-                objs.append(world.make())
-            obs.append((rc, trace, [occupancy(q) for q in objs]))
+                objs.append(world.fresh())
+            vf = 2 if vflag is None else vflag(len(obs), call, val, exc)
+            obs.append((rc, trace, [occupancy(q) for q in objs], vf))
             if want_values:
                 values.append((val, exc))
             if after_call is not None:
@@ -388,16 +399,16 @@ def coq_op(world, op):
     raise ValueError(op)
 
 
-def coq_call(world, call):
+def coq_call(world, call, sh=0):
     k = call[0]
     if k == 'call':
-        return 'H (Call %d %s never)' % (call[1], coq_op(world, call[2]))
+        return 'H (Call %d %s never)' % (call[1] + sh, coq_op(world, call[2]))
     if k == 'fail':
-        return 'HFail %d %s %d' % (call[1], coq_op(world, call[2]), call[3])
+        return 'HFail %d %s %d' % (call[1] + sh, coq_op(world, call[2]), call[3])
     if k == 'copy':
-        return 'H (Copy %d)' % call[1]
+        return 'H (Copy %d)' % (call[1] + sh)
     if k == 'deepcopy':
-        return 'H (DeepCopy %d)' % call[1]
+        return 'H (DeepCopy %d)' % (call[1] + sh)
     return 'H Fresh'
 
 
@@ -406,8 +417,16 @@ def nlist(xs):
 
 
 def coq_history_def(name, world, history, obs):
-    hs = '[' + ';\n   '.join(coq_call(world, c) for c in history) + ']'
-    ob = '[' + ';\n   '.join('(%d, %s, %s)' % (rc, nlist(tr), nlist(occ)) for rc, tr, occ in obs) + ']'
+    """for an extended world the Python object i is the model's object i+1: object 0 of the model's initial store
+    stays an untouched plain pulse, the history starts with FreshExtended"""
+    sh = 1 if world.extended else 0
+    calls = [coq_call(world, c, sh) for c in history]
+    rows = ['(%d, %s, %s, %d)' % (rc, nlist(tr), nlist(([0] if sh else []) + list(occ)), vf) for rc, tr, occ, vf in obs]
+    if sh:
+        calls = ['H FreshExtended'] + calls
+        rows = ['(0, [], [0;184], 2)'] + rows
+    hs = '[' + ';\n   '.join(calls) + ']'
+    ob = '[' + ';\n   '.join(rows) + ']'
     return 'Definition %s : N*N*N := history_tally\n  %s\n  (%s)%%N.\n' % (name, hs, ob)
 
 
